@@ -117,7 +117,8 @@ func rpSpec(ops []rpOp) []byte {
 			}
 			resps[r.name] = rr
 		}
-		paths["/"+o.id] = map[string]any{"get": map[string]any{"operationId": o.id, "responses": resps}}
+		// the HEAD operation of the same path mirrors the GET operation's responses (headers only on the wire)
+		paths["/"+o.id] = map[string]any{"get": map[string]any{"operationId": o.id, "responses": resps}, "head": map[string]any{"operationId": o.id + "Head", "responses": resps}}
 	}
 	// typed request bodies
 	body := func(ct string, schema map[string]any) map[string]any {
@@ -199,6 +200,7 @@ func runC13(r *Report, rng *rand.Rand, thorough bool) {
 		op     rpOp
 		status int
 		ct     string
+		head   bool // the reply to a HEAD request: Content-Length of the would-be body, empty body
 	}
 	metas := map[string]meta{}
 	statuses := []int{200, 201, 204, 299, 404, 418, 500, 503}
@@ -232,8 +234,8 @@ func runC13(r *Report, rng *rand.Rand, thorough bool) {
 				}
 				id := fmt.Sprintf("%s/%d/%s", o.id, s, ct)
 				scenarios = append(scenarios, map[string]any{"id": id, "pkg": pkg, "opts": map[string]any{"short_circuit": -1, "strict_short_circuit": -1},
-					"parse": map[string]any{"fn": "Parse" + opName(o.id) + "Response", "status": s, "content_type": ct, "body": rpBody(classOf(ct))}})
-				metas[id] = meta{o, s, ct}
+					"parse": map[string]any{"fn": "Parse" + opName(o.id) + "Response", "status": s, "content_type": ct, "body": rpBody(classOf(ct)), "framing": []string{"length", "chunked"}[rng.Intn(2)]}})
+				metas[id] = meta{o, s, ct, false}
 			}
 		}
 	}
@@ -257,8 +259,32 @@ func runC13(r *Report, rng *rand.Rand, thorough bool) {
 				}
 				scenarios = append(scenarios, map[string]any{"id": id, "pkg": pkg, "opts": map[string]any{"short_circuit": -1, "strict_short_circuit": -1},
 					"parse": map[string]any{"fn": "Parse" + opName(o.id) + "Response", "status": st, "content_type": md.ct, "body": rpBody(classOf(md.ct))}})
-				metas[id] = meta{o, st, md.ct}
+				metas[id] = meta{o, st, md.ct, false}
 			}
+		}
+	}
+	// replies to HEAD requests (a router may serve HEAD with the GET handler): Content-Length announces the body a GET
+	// would carry, the body itself is empty; status and (empty) raw body must be exposed
+	for i, o := range ops {
+		pkg := fmt.Sprintf("c13_p%d", i/per)
+		if !lab.Status[pkg].OK || (!thorough && i >= 12) {
+			continue
+		}
+		type hc struct {
+			st int
+			ct string
+		}
+		heads := []hc{{200, "text/html"}, {404, ""}}
+		if len(o.resps) > 0 && len(o.resps[0].media) > 0 {
+			if st := rpRepresentative(o, o.resps[0].name); st != 0 {
+				heads = append(heads, hc{st, o.resps[0].media[0].ct})
+			}
+		}
+		for _, h := range heads {
+			id := fmt.Sprintf("%s/head/%d/%s", o.id, h.st, h.ct)
+			scenarios = append(scenarios, map[string]any{"id": id, "pkg": pkg, "opts": map[string]any{"short_circuit": -1, "strict_short_circuit": -1},
+				"parse": map[string]any{"fn": "Parse" + opName(o.id+"Head") + "Response", "status": h.st, "content_type": h.ct, "body": rpBody(classOf(h.ct)), "framing": "head"}})
+			metas[id] = meta{o, h.st, h.ct, true}
 		}
 	}
 	// request bodies
@@ -342,6 +368,23 @@ func runC13(r *Report, rng *rand.Rand, thorough bool) {
 				}
 			}
 		}
+		if m.head {
+			r.Count(id, true)
+			r.Dist["reply=to-HEAD"]++
+			var st int
+			_ = json.Unmarshal(res.Parsed["HTTPResponse.StatusCode"], &st)
+			var raw string
+			_ = json.Unmarshal(res.Parsed["Body"], &raw)
+			if res.Err != "" || st != m.status || raw != "" {
+				sig := "head_reply_not_exposed"
+				if wantField != "" && res.Err != "" {
+					// a typed clause matches the reply's status and Content-Type and decodes the (empty) body of the HEAD reply
+					sig = "head_reply_with_declared_content_type_decoded_as_body"
+				}
+				r.Violate(sig, fmt.Sprintf("%s: reply to HEAD, status %d, Content-Type %q, Content-Length of the GET body, empty body: error %q, status exposed %d, raw body %q", id, m.status, m.ct, res.Err, st, raw), replay)
+			}
+			continue
+		}
 		nontrivial := wantField != "" && len(m.op.resps) > 1
 		r.Count(id+fmt.Sprint(m.op.resps), nontrivial)
 		r.Dist[fmt.Sprintf("status=%d", m.status)]++
@@ -423,7 +466,7 @@ func runC13(r *Report, rng *rand.Rand, thorough bool) {
 		}
 	}
 	pcases.WriteTo(r)
-	r.Rule = "operations with 1-4 declared responses over {200, 201, 404, 500, 2XX, 4XX, 5XX, default} x 0-3 media types each from {application/json, vendor +json (3), hal+json, yaml (2), xml (2), unparsable (2), structured-syntax +xml (2)} (two fixed witnesses and common shapes first), generated client compiled; Parse<Op>Response called on synthesized replies: statuses {200,201,204,299,404,418,500,503} x every declared media type + application/json (+charset) + text/html, and every declared pair answered once with a status only that response matches best (every typed field of the response type must be filled by some declared reply); observed = which typed fields are non-nil, raw body and status; typed request builders (JSON, vendor JSON, form, text) checked for Content-Type and encoding; non-trivial = a declared pair is expected with several responses declared"
+	r.Rule = "operations with 1-4 declared responses over {200, 201, 404, 500, 2XX, 4XX, 5XX, default} x 0-3 media types each from {application/json, vendor +json (3), hal+json, yaml (2), xml (2), unparsable (2), structured-syntax +xml (2)} (two fixed witnesses and common shapes first), generated client compiled; Parse<Op>Response called on synthesized replies: statuses {200,201,204,299,404,418,500,503} x every declared media type + application/json (+charset) + text/html, and every declared pair answered once with a status only that response matches best (every typed field of the response type must be filled by some declared reply); replies framed with Content-Length or chunked, and replies to HEAD requests (announced length, empty body); observed = which typed fields are non-nil, raw body and status; typed request builders (JSON, vendor JSON, form, text) checked for Content-Type and encoding; non-trivial = a declared pair is expected with several responses declared"
 }
 
 // rpRepresentative: a status that the named response matches and no more specific declared response does (0 if none).
